@@ -121,7 +121,7 @@ def functions(block):
                 break
             j += 1
         e = match_brace(block, j)
-        out.append((m.group(1) == "pub", m.group(2), norm(block[m.start():j]), norm(block[j + 1:e - 1])))
+        out.append((m.group(1) == "pub", m.group(2), norm("fn " + block[m.start(2):j]), norm(block[j + 1:e - 1])))
         i = e
     return out
 
@@ -180,9 +180,11 @@ ARG_TY = {"u32": "u32", "&str": "string", "DeviceConfiguration": "deviceConfigur
 
 # Non-uniform accessors, modelled by hand in Model/RegMap.lean.
 #  tag != None : a getter that reads ONE register as u32 (or 20 raw bytes for sha1) and
-#                post-processes it; emitted as an ordinary row with that decoder tag.
-#  tag == None : constructors, navigation, cached capability words; emitted in `handModelled`
-#                together with the register constants and accessors they reference.
+#                post-processes it; its WHOLE body is pinned by a template in DECODER_TEMPLATES
+#                (exact text; only the register constant and the shift / mask literals are
+#                placeholders, which are emitted and compared with the standards by proof).
+#  tag == None : constructors, navigation, cached capability words; exact bodies in HAND_BODIES;
+#                emitted in `handModelled` with the register constants / accessors they reference.
 HAND = {
     "Abrm.gencp_version": "ver1616",
     "Sbrm.u3v_version": "ver1616",
@@ -197,6 +199,35 @@ HAND = {
     "ManifestEntry.new": None,
 }
 
+# Templates: literal text after normalisation; `<REG>` = register constant `mod::CONST`,
+# `<f.shift>` / `<f.mask>` = integer literals of bit field `f`.  The raw variable the fields are
+# taken from is part of the literal text, so `let major = (minor >> 16) & ..` does not match.
+DECODER_TEMPLATES = {
+    "Abrm.gencp_version": "let gencp_version: u32 = self.read_register(device, <REG>)?; let gencp_version_minor = gencp_version & <minor.mask>; let gencp_version_major = (gencp_version >> <major.shift>_i32) & <major.mask>; Ok(semver::Version::new(u64::from(gencp_version_major), u64::from(gencp_version_minor), 0))",
+    "Sbrm.u3v_version": "let u3v_version: u32 = self.read_register(device, <REG>)?; let u3v_version_minor = u3v_version & <minor.mask>; let u3v_version_major = (u3v_version >> <major.shift>_i32) & <major.mask>; Ok(semver::Version::new(u64::from(u3v_version_major), u64::from(u3v_version_minor), 0))",
+    "ManifestEntry.genicam_file_version": "let file_version: u32 = self.read_register(device, <REG>)?; let subminor = file_version & <patch.mask>; let minor = (file_version >> <minor.shift>_i32) & <minor.mask>; let major = (file_version >> <major.shift>_i32) & <major.mask>; Ok(semver::Version::new(u64::from(major), u64::from(minor), u64::from(subminor)))",
+    "Sirm.payload_size_alignment": "let si_info: u32 = self.read_register(device, <REG>)?; let exponent = si_info >> <exponent.shift>_i32; 1_usize.checked_shl(exponent).ok_or_else(|| { ControlError::InvalidDevice(format!(\"payload size alignment is too large: 2^{}\", exponent).into()) })",
+    "Sirm.is_stream_enable": "let si_ctrl: u32 = self.read_register(device, <REG>)?; Ok((si_ctrl & <bit.mask>) == 1)",
+    "GenICamFileInfo.schema_version": "let major = (self.0 >> <major.shift>_i32) & <major.mask>; let minor = (self.0 >> <minor.shift>_i32) & <minor.mask>; semver::Version::new(u64::from(major), u64::from(minor), 0)",
+    "GenICamFileInfo.file_type": "let raw = self.0 & <raw.mask>; match raw { <ARMS> }",
+    "GenICamFileInfo.compression_type": "let raw = (self.0 >> <raw.shift>_i32) & <raw.mask>; match raw { <ARMS> }",
+    "ParseBytes for u3v::BusSpeed": "use u3v::BusSpeed::{FullSpeed, HighSpeed, LowSpeed, SuperSpeed, SuperSpeedPlus}; let raw = u32::parse_bytes(bytes)?; let speed = match raw { <ARMS> }; Ok(speed)",
+}
+# order in which the fields of a decoder are emitted
+FIELD_ORDER = {
+    "Abrm.gencp_version": ["major", "minor"], "Sbrm.u3v_version": ["major", "minor"],
+    "ManifestEntry.genicam_file_version": ["major", "minor", "patch"],
+    "Sirm.payload_size_alignment": ["exponent"], "Sirm.is_stream_enable": ["bit"],
+    "GenICamFileInfo.schema_version": ["major", "minor"], "GenICamFileInfo.file_type": ["raw"],
+    "GenICamFileInfo.compression_type": ["raw"],
+}
+# match arms: every arm but the last must be exactly `LITERAL => <ARM_VALUE>`; the last arm exactly FALLBACK
+ARM_SHAPES = {
+    "ParseBytes for u3v::BusSpeed": (r"(\w+)", "other => { return Err(ControlError::InvalidDevice(format!(\"invalid bus speed defined: {:#b}\", other).into())) }"),
+    "GenICamFileInfo.file_type": (r"Ok\(GenICamFileType::(\w+)\)", "_ => Err(ControlError::InvalidDevice(format!(\"Invalid U3V GenICamFileType value: {}\", raw).into()))"),
+    "GenICamFileInfo.compression_type": (r"Ok\(CompressionType::(\w+)\)", "_ => Err(ControlError::InvalidDevice(format!(\"Invalid U3V GenICamFilFormat value: {}\", raw).into()))"),
+}
+
 # exact (normalised) bodies of the structural accessors — the hand model mirrors these
 HAND_BODIES = {
     "Abrm.new": "let (capability_addr, capability_len) = abrm::DEVICE_CAPABILITY; let device_capability = read_register(device, capability_addr, capability_len)?; Ok(Self { device_capability })",
@@ -208,9 +239,24 @@ HAND_BODIES = {
     "Sbrm.u3v_capability": "Ok(self.capability)",
     "Sirm.new": "Self { sirm_addr }",
     "ManifestTable.new": "Self { manifest_address }",
-    "ManifestTable.entries": "let entry_num: u64 = self.read_register(device, (0, 8))?; let first_entry_addr = register_address(self.manifest_address, 8)?; entry_num.checked_mul(64).and_then(|table_size| first_entry_addr.checked_add(table_size)).ok_or_else(|| { ControlError::InvalidDevice(\"manifest table doesn't fit into the address space\".into()) })?; Ok((0..entry_num).map(move |i| ManifestEntry::new(first_entry_addr + i * 64)))",
+    "ManifestTable.entries": "let entry_num: u64 = self.read_register(device, (0, 8))?; let table_end = u128::from(self.manifest_address) + 8 + u128::from(entry_num) * 64; if table_end > 1_u128 << 64_i32 { return Err(ControlError::InvalidDevice(\"manifest table doesn't fit into the address space\".into())); } let manifest_address = self.manifest_address; Ok((0..entry_num).map(move |i| ManifestEntry::new(manifest_address + 8 + i * 64)))",
     "ManifestEntry.new": "Self { entry_addr }",
     "ManifestEntry.sha1_hash": "let mut sha1_hash: [u8; 20] = [0; 20]; let addr = register_address(self.entry_addr, manifest_entry::SHA1_HASH.0)?; device.read(addr, &mut sha1_hash)?; if sha1_hash.iter().all(|byte| *byte == 0) { Ok(None) } else { Ok(Some(sha1_hash)) }",
+}
+# exact signatures (after the name) of the structural accessors: what they take and return
+HAND_SIGS = {
+    "Abrm.new": "<Ctrl: DeviceControl + ?Sized>(device: &mut Ctrl) -> ControlResult<Self>",
+    "Abrm.sbrm": "<Ctrl: DeviceControl + ?Sized>(&self, device: &mut Ctrl) -> ControlResult<Sbrm>",
+    "Abrm.manifest_table": "<Ctrl: DeviceControl + ?Sized>(&self, device: &mut Ctrl) -> ControlResult<ManifestTable>",
+    "Abrm.device_capability": "(&self) -> ControlResult<DeviceCapability>",
+    "Sbrm.new": "<Ctrl: DeviceControl + ?Sized>(device: &mut Ctrl, sbrm_addr: u64) -> ControlResult<Self>",
+    "Sbrm.sirm": "<Ctrl: DeviceControl + ?Sized>(&self, device: &mut Ctrl) -> ControlResult<Option<Sirm>>",
+    "Sbrm.u3v_capability": "(&self) -> ControlResult<U3VCapablitiy>",
+    "Sirm.new": "(sirm_addr: u64) -> Self",
+    "ManifestTable.new": "(manifest_address: u64) -> Self",
+    "ManifestTable.entries": "<Ctrl: DeviceControl + ?Sized>(&self, device: &mut Ctrl) -> ControlResult<impl Iterator<Item = ManifestEntry>>",
+    "ManifestEntry.new": "(entry_addr: u64) -> Self",
+    "ManifestEntry.sha1_hash": "<Ctrl: DeviceControl + ?Sized>(&self, device: &mut Ctrl) -> ControlResult<Option<[u8; 20]>>",
 }
 
 # private helpers: exact normalised bodies (per struct) the model's address/IO plumbing mirrors
@@ -242,7 +288,11 @@ CODEC_BODIES = {
     "ParseBytes for Duration": "let raw = u32::parse_bytes(bytes)?; Ok(Duration::from_millis(u64::from(raw)))",
     "DumpBytes for &str": "if !self.is_ascii() { return Err(ControlError::InvalidData(\"string encoding must be ascii\".into())); } if self.contains('\\0') { return Err(ControlError::InvalidData(\"string must not contain NUL character\".into())); } let data_len = self.len(); if data_len > buf.len() { return Err(ControlError::InvalidData(\"too large string\".into())); } buf[..data_len].copy_from_slice(self.as_bytes()); if data_len < buf.len() { buf[data_len] = 0; } Ok(())",
     "DumpBytes for DeviceConfiguration": "self.0.dump_bytes(buf)",
+    "<T> DumpBytes for &T where T: DumpBytes,": "(*self).dump_bytes(buf)",
 }
+NEWTYPES = ["DeviceConfiguration", "DeviceCapability", "GenICamFileInfo", "U3VCapablitiy"]
+VALUE_STRUCTS = ["DeviceConfiguration", "DeviceCapability", "U3VCapablitiy", "GenICamFileInfo"]
+NUMERIC_MACRO_CALLS = ["impl_parse_bytes_for_numeric", "impl_dump_bytes_for_numeric"]
 
 EXTRA_PAIRS = [  # setter |-> getter beyond the `set_X` / `X` naming convention
     ("Abrm.write_device_configuration", "Abrm.device_configuration"),
@@ -251,6 +301,7 @@ EXTRA_PAIRS = [  # setter |-> getter beyond the `set_X` / `X` naming convention
 ]
 
 REG = r"(abrm|sbrm|sirm|manifest_entry)::([A-Z][A-Z0-9_]*)"
+LIT = r"0x[0-9a-fA-F_]+|0b[01_]+|\d[\d_]*"
 
 
 def ret_type(sig, name):
@@ -286,20 +337,237 @@ def params(sig):
     return out
 
 
-def bitfields(fname, text):
-    """`let v = raw & MASK;` / `let v = (raw >> S_i32) & MASK;` / `let v = raw >> S_i32;`"""
-    out = []
-    for m in re.finditer(r"let (\w+) = \(?([\w.]+)(?: >> (\d+)_i32)?\)?(?: & (0x[0-9a-fA-F_]+|0b[01_]+|\d+))?;", text):
-        var, raw, sh, mask = m.groups()
-        if sh is None and mask is None:
+def split_top(text, sep=","):
+    """split at separators outside (), [], {} and string literals"""
+    out, cur, depth, i, n = [], "", 0, 0, len(text)
+    while i < n:
+        c = text[i]
+        if c == '"':
+            j = i + 1
+            while j < n and text[j] != '"':
+                j += 2 if text[j] == "\\" else 1
+            cur += text[i:j + 1]
+            i = j + 1
             continue
-        out.append((fname, var, int(sh or 0), intlit(mask.lower()) if mask else None))
+        if c in "([{":
+            depth += 1
+        elif c in ")]}":
+            depth -= 1
+        if c == sep and depth == 0:
+            out.append(cur.strip())
+            cur = ""
+        else:
+            cur += c
+        i += 1
+    if cur.strip():
+        out.append(cur.strip())
     return out
+
+
+def match_template(name, body):
+    """Fullmatch `body` against DECODER_TEMPLATES[name]; returns (groupdict, arms-text or None)."""
+    template = DECODER_TEMPLATES[name]
+    rx = ""
+    for part in re.split(r"(<[A-Za-z_.]+>)", template):
+        if part == "<REG>":
+            rx += r"(?P<REGMOD>abrm|sbrm|sirm|manifest_entry)::(?P<REGCONST>[A-Z][A-Z0-9_]*)"
+        elif part == "<ARMS>":
+            rx += r"(?P<ARMS>.*)"
+        elif part.startswith("<") and part.endswith(".shift>"):
+            rx += r"(?P<%s_shift>\d+)" % part[1:-7]
+        elif part.startswith("<") and part.endswith(".mask>"):
+            rx += r"(?P<%s_mask>%s)" % (part[1:-6], LIT)
+        else:
+            rx += re.escape(part)
+    m = re.fullmatch(rx, body)
+    if not m:
+        refuse(f"{name}: decoder body changed; the model mirrors exactly the shape\n    {template}\n  but the source has\n    {body}")
+    return m.groupdict()
+
+
+def fields_of(name, gd):
+    out = []
+    for f in FIELD_ORDER[name]:
+        sh = int(gd.get(f + "_shift") or 0)
+        mk = gd.get(f + "_mask")
+        # a plain `raw >> s` on a u32: mask of the bits that can be set after the shift
+        mask = intlit(mk.lower()) if mk is not None else (0xFFFFFFFF >> sh)
+        out.append((name, f, sh, mask))
+    return out
+
+
+def arms_of(name, arms_text):
+    """[(literal, variant)]: every arm but the last is exactly `LIT => value`, the last the pinned fallback."""
+    value_rx, fallback = ARM_SHAPES[name]
+    arms = split_top(arms_text)
+    if not arms or arms[-1] != fallback:
+        refuse(f"{name}: last match arm is not the pinned fallback\n    {fallback}\n  but\n    {arms[-1] if arms else '<none>'}")
+    table = []
+    for a in arms[:-1]:
+        m = re.fullmatch(r"(" + LIT + r") => " + value_rx, a)
+        if not m:
+            refuse(f"{name}: match arm is not exactly `LITERAL => variant` (alternatives `|`, guards, ranges and bindings are not modelled): `{a}`")
+        lit = intlit(m.group(1).lower())
+        if lit in [t[0] for t in table]:
+            refuse(f"{name}: literal {lit} matched by two arms")
+        table.append((lit, m.group(2)))
+    if not table:
+        refuse(f"{name}: no arms")
+    return table
+
+
+def top_level_items(src):
+    """Top-level items of the (comment-stripped) file: inherent / trait impl blocks, fns, macro
+    definitions and invocations, modules.  Returns dict kind -> list."""
+    items = {"impl": [], "fn": [], "macro_rules": [], "macro_call": [], "mod": []}
+    i, n, depth = 0, len(src), 0
+    tok = re.compile(r"\"|\{|\}|\b(macro_rules!)|\b(?:(impl|fn|mod)\b)|\b(\w+)!\s*[\(\[\{]")
+    while i < n:
+        m = tok.search(src, i)
+        if not m:
+            break
+        t = m.group(0)
+        if t == '"':
+            j = m.end()
+            while j < n and src[j] != '"':
+                j += 2 if src[j] == "\\" else 1
+            i = j + 1
+            continue
+        if t == "{":
+            depth += 1
+            i = m.end()
+            continue
+        if t == "}":
+            depth -= 1
+            i = m.end()
+            continue
+        if depth != 0:
+            i = m.end()
+            continue
+        kw = m.group(1) or m.group(2)
+        if kw == "impl":
+            # an item, not `x: impl Trait` / `-> impl Trait` in a signature
+            prev = src[:m.start()].rstrip()
+            if prev and prev[-1] not in "};]" and not prev.endswith("unsafe"):
+                i = m.end()
+                continue
+            o = src.index("{", m.end())
+            e = match_brace(src, o)
+            items["impl"].append((norm(src[m.end():o]), src[o + 1:e - 1]))
+            i = e
+        elif kw == "fn":
+            o = m.end()
+            # signature up to the body brace at bracket depth 0
+            j, d = o, 0
+            while True:
+                c = src[j]
+                if c in "(<[":
+                    d += 1
+                elif c in ")>]" and not (c == ">" and src[j - 1] == "-"):
+                    d -= 1
+                elif c == "{" and d == 0:
+                    break
+                j += 1
+            e = match_brace(src, j)
+            vis = src[:m.start()].rstrip().endswith("pub") or re.search(r"pub(\([^)]*\))?\s*$", src[:m.start()]) is not None
+            items["fn"].append((vis, norm(src[m.start():j]), norm(src[j + 1:e - 1])))
+            i = e
+        elif kw == "mod":
+            items["mod"].append(norm(src[m.start():m.start() + 60]))
+            i = m.end()
+        elif kw == "macro_rules!":
+            nm = re.match(r"\s*(\w+)\s*", src[m.end():])
+            o = src.index("{", m.end())
+            e = match_brace(src, o)
+            items["macro_rules"].append((nm.group(1), norm(src[o + 1:e - 1])))
+            i = e
+        else:
+            items["macro_call"].append(m.group(3))
+            # skip the invocation's delimited body
+            o = m.end() - 1
+            if src[o] == "{":
+                i = match_brace(src, o)
+            else:
+                close = ")" if src[o] == "(" else "]"
+                d, j = 0, o
+                while True:
+                    if src[j] == src[o]:
+                        d += 1
+                    elif src[j] == close:
+                        d -= 1
+                        if d == 0:
+                            break
+                    j += 1
+                i = j + 1
+    return items
 
 
 def parse_accessors(src, tables):
     src = strip_comments(src)
     rows, hand, fields, pub_names = [], [], [], []
+    items = top_level_items(src)
+
+    # ---- nothing in the file may escape: modules, macros, free fns, impl blocks are all accounted for
+    for m in items["mod"]:
+        if not re.match(r"mod \w+\s*;", m):
+            refuse(f"inline module `{m}…`: items inside it would escape the extraction")
+    for name, body in items["macro_rules"]:
+        if name not in MACROS:
+            refuse(f"unknown macro definition `{name}!` (it could generate accessors the extraction cannot see)")
+        if body != MACROS[name]:
+            refuse(f"macro `{name}!` changed; the model mirrors\n    {MACROS[name]}\n  but the source has\n    {body}")
+    for mac in MACROS:
+        if mac not in [x[0] for x in items["macro_rules"]]:
+            refuse(f"macro `{mac}!` not found")
+    for call in items["macro_call"]:
+        if call not in NUMERIC_MACRO_CALLS:
+            refuse(f"unknown top-level macro invocation `{call}!(…)` (it could generate items the extraction cannot see)")
+    seen_free = set()
+    for vis, sig, body in items["fn"]:
+        fn = re.match(r"fn (\w+)", sig).group(1)
+        if fn not in FREE_FN_BODIES:
+            refuse(f"unknown free function `{fn}` (the model does not know it): `{sig[:120]}`")
+        if vis:
+            refuse(f"free function `{fn}` became public")
+        if fn in seen_free:
+            refuse(f"free function `{fn}` defined twice")
+        seen_free.add(fn)
+        if body != FREE_FN_BODIES[fn]:
+            refuse(f"free function `{fn}` changed; the model mirrors\n    {FREE_FN_BODIES[fn]}\n  but the source has\n    {body}")
+    for fn in FREE_FN_BODIES:
+        if fn not in seen_free:
+            refuse(f"free function `{fn}` not found")
+
+    inherent = {}     # struct -> [(is_pub, fn, sig, body)] merged over ALL `impl Struct {` blocks
+    trait_impls = {}  # header -> [fns]
+    for header, body in items["impl"]:
+        if re.fullmatch(r"[A-Za-z_]\w*", header):
+            fns = functions(body)
+            have = [f[1] for f in inherent.get(header, [])]
+            for f in fns:
+                if f[1] in have:
+                    refuse(f"{header}.{f[1]}: defined in more than one `impl {header}` block")
+            inherent.setdefault(header, []).extend(fns)
+        else:
+            if header in trait_impls:
+                refuse(f"`impl {header}` appears twice")
+            trait_impls[header] = functions(body)
+    for st in inherent:
+        if st not in IMPLS and st not in VALUE_STRUCTS:
+            refuse(f"`impl {st} {{…}}`: inherent impl of a type the extraction does not know "
+                   f"(methods: {', '.join(f[1] for f in inherent[st])}); teach tools/gen_regmap.py, the model and Spec/U3V.lean")
+    for st in list(IMPLS) + VALUE_STRUCTS:
+        if st not in inherent:
+            refuse(f"`impl {st}` not found")
+    known_traits = set(CODEC_BODIES) | {f"ParseBytes for {t}" for t in NEWTYPES} | {"ParseBytes for u3v::BusSpeed"}
+    for header, fns in trait_impls.items():
+        if header not in known_traits:
+            refuse(f"unknown trait impl `impl {header}` (methods: {', '.join(f[1] for f in fns)}): it may add "
+                   f"device accesses or codecs the model does not know")
+    for header in known_traits:
+        if header not in trait_impls:
+            refuse(f"`impl {header}` not found")
+
     # struct fields -> capability struct
     cap_field = {}
     for st in IMPLS:
@@ -309,8 +577,7 @@ def parse_accessors(src, tables):
             cap_field[(st, n)] = t
 
     for st, (base, regmod, _) in IMPLS.items():
-        block = block_after(src, r"\bimpl\s+" + st + r"\s*\{", f"impl {st}")
-        for is_pub, fn, sig, body in functions(block):
+        for is_pub, fn, sig, body in inherent[st]:
             name = f"{st}.{fn}"
             if not is_pub:
                 want = HELPER_BODIES.get((st, fn))
@@ -320,6 +587,8 @@ def parse_accessors(src, tables):
                     refuse(f"{name}: private helper body changed; the model mirrors\n    {want}\n  but the source has\n    {body}")
                 continue
             pub_names.append(name)
+            std_get_sig = re.fullmatch(r"fn \w+<Ctrl: DeviceControl \+ \?Sized>\(&self, device: &mut Ctrl\) -> .+", sig)
+            std_set_sig = re.fullmatch(r"fn \w+<Ctrl: DeviceControl \+ \?Sized>\(&self, device: &mut Ctrl(, \w+: [^,()]+)?\) -> ControlResult<\(\)>", sig)
 
             def reg_of(mod, const):
                 if regmod is not None and mod != regmod:
@@ -336,11 +605,15 @@ def parse_accessors(src, tables):
 
             if name in HAND:
                 tag = HAND[name]
+                if name in HAND_BODIES:
+                    if body != HAND_BODIES[name]:
+                        refuse(f"{name}: hand-modelled accessor body changed; the model mirrors\n    {HAND_BODIES[name]}\n  but the source has\n    {body}")
+                    want_sig = f"fn {fn}" + HAND_SIGS[name]
+                    if sig != want_sig:
+                        refuse(f"{name}: signature changed; the model mirrors\n    {want_sig}\n  but the source has\n    {sig}")
                 regs = sorted(set(re.findall(REG, body)))
                 for mod, const in regs:
                     reg_of(mod, const)
-                if name in HAND_BODIES and body != HAND_BODIES[name]:
-                    refuse(f"{name}: hand-modelled accessor body changed; the model mirrors\n    {HAND_BODIES[name]}\n  but the source has\n    {body}")
                 if tag is None:
                     calls = sorted(set(re.findall(r"self\.(\w+)\(device\)", body)) - {"read_register", "write_register"})
                     hand.append((name, base, regs, [f"{st}.{c}" for c in calls]))
@@ -353,34 +626,15 @@ def parse_accessors(src, tables):
                         refuse(f"{name}: reads into a [u8; 20] but manifest_entry::SHA1_HASH has length {sha_len}")
                     rows.append((name, base, "get", "manifest_entry", "SHA1_HASH", "sha1", None))
                     continue
-                m = re.match(r"^let (\w+): u32 = self\.read_register\(device, " + REG + r"\)\?; (.*)$", body)
-                if not m:
-                    refuse(f"{name}: hand-modelled decoder does not start with `let x: u32 = self.read_register(device, M::C)?;`: `{body[:120]}`")
-                raw, mod, const, tail = m.groups()
-                reg_of(mod, const)
-                fs = bitfields(name, tail)
-                if tag == "bit0":
-                    if tail != f"Ok(({raw} & 1) == 1)":
-                        refuse(f"{name}: expected `Ok(({raw} & 1) == 1)`, found `{tail}`")
-                    fs = [(name, "bit", 0, 1)]
-                if tag == "align":
-                    want = "let exponent = si_info >> 24_i32; 1_usize.checked_shl(exponent).ok_or_else(|| { ControlError::InvalidDevice(format!(\"payload size alignment is too large: 2^{}\", exponent).into()) })"
-                    if tail != want:
-                        refuse(f"{name}: alignment decoder changed; the model mirrors\n    {want}\n  but the source has\n    {tail}")
-                if tag in ("ver1616", "fileVer"):
-                    vm = re.search(r"semver::Version::new\(u64::from\((\w+)\), u64::from\((\w+)\), (?:u64::from\((\w+)\)|0)\)", tail)
-                    if not vm:
-                        refuse(f"{name}: cannot find `semver::Version::new(u64::from(a), u64::from(b), …)` in `{tail[:160]}`")
-                    order = [v for v in vm.groups() if v]
-                    byvar = {f[1]: f for f in fs}
-                    for v in order:
-                        if v not in byvar:
-                            refuse(f"{name}: version component `{v}` is not a `let {v} = (raw >> s) & mask;` bit field")
-                    roles = ["major", "minor", "patch"]
-                    fs = [(name, roles[i], byvar[v][2], byvar[v][3]) for i, v in enumerate(order)]
-                if not fs:
-                    refuse(f"{name}: no bit field found in `{tail[:120]}`")
-                fields += fs
+                if not std_get_sig:
+                    refuse(f"{name}: decoder signature is not `(&self, device: &mut Ctrl) -> …`: `{sig}`")
+                gd = match_template(name, body)
+                mod, const = reg_of(gd["REGMOD"], gd["REGCONST"])
+                fields += fields_of(name, gd)
+                want_ret = {"ver1616": "ControlResult<semver::Version>", "fileVer": "ControlResult<semver::Version>",
+                            "align": "ControlResult<usize>", "bit0": "ControlResult<bool>"}[tag]
+                if ret_type(sig, name) != want_ret:
+                    refuse(f"{name}: return type `{ret_type(sig, name)}`, expected `{want_ret}`")
                 rows.append((name, base, "get", mod, const, tag, None))
                 continue
 
@@ -388,24 +642,24 @@ def parse_accessors(src, tables):
             m = re.fullmatch(r"self\.read_register\(device, " + REG + r"\)", body)
             if m:
                 rt = re.fullmatch(r"ControlResult<(.+)>", ret_type(sig, name))
-                if not rt or rt.group(1) not in RET_TY:
-                    refuse(f"{name}: getter with unknown return type `{ret_type(sig, name)}`")
+                if not std_get_sig or not rt or rt.group(1) not in RET_TY:
+                    refuse(f"{name}: getter with unknown signature / return type `{sig}`")
                 mod, const = reg_of(*m.groups())
                 rows.append((name, base, "get", mod, const, RET_TY[rt.group(1)], None))
                 continue
             m = re.fullmatch(r"if self\.(\w+)\.(\w+)\(\) \{ self\.read_register\(device, " + REG + r"\)\.map\(Some\) \} else \{ Ok\(None\) \}", body)
             if m:
                 rt = re.fullmatch(r"ControlResult<Option<(.+)>>", ret_type(sig, name))
-                if not rt or rt.group(1) not in RET_TY:
-                    refuse(f"{name}: guarded getter with unknown return type `{ret_type(sig, name)}`")
+                if not std_get_sig or not rt or rt.group(1) not in RET_TY:
+                    refuse(f"{name}: guarded getter with unknown signature / return type `{sig}`")
                 field, pred, mod, const = m.groups()
                 mod, const = reg_of(mod, const)
                 rows.append((name, base, "get", mod, const, RET_TY[rt.group(1)], guard_of(field, pred)))
                 continue
             m = re.fullmatch(r"(?:let value = (\d+)_u32; )?self\.write_register\(device, " + REG + r", (\w+)\)", body)
             if m:
-                if ret_type(sig, name) != "ControlResult<()>":
-                    refuse(f"{name}: setter with return type `{ret_type(sig, name)}`")
+                if not std_set_sig:
+                    refuse(f"{name}: setter with unknown signature `{sig}`")
                 const_v, mod, const, argname = m.groups()
                 mod, const = reg_of(mod, const)
                 ps = params(sig)
@@ -423,6 +677,8 @@ def parse_accessors(src, tables):
                 continue
             m = re.fullmatch(r"if !self\.(\w+)\.(\w+)\(\) \{ return Ok\(\(\)\); \} self\.write_register\(device, " + REG + r", (\w+)\)", body)
             if m:
+                if not std_set_sig:
+                    refuse(f"{name}: setter with unknown signature `{sig}`")
                 field, pred, mod, const, argname = m.groups()
                 mod, const = reg_of(mod, const)
                 ps = params(sig)
@@ -436,96 +692,61 @@ def parse_accessors(src, tables):
         if h not in pub_names:
             refuse(f"{h}: listed as hand-modelled but no such public accessor exists any more")
 
-    # ---- free helper functions, macros, codecs
-    for fn, want in FREE_FN_BODIES.items():
-        m = re.search(r"\nfn\s+" + fn + r"\b", src)
-        if not m:
-            refuse(f"free function `{fn}` not found")
-        o = src.index("{", m.end())
-        # skip generics/where: the body is the first brace block at top level after the signature
-        body = norm(src[o + 1:match_brace(src, o) - 1])
-        if body != want:
-            refuse(f"free function `{fn}` changed; the model mirrors\n    {want}\n  but the source has\n    {body}")
-    for mac, want in MACROS.items():
-        body = norm(block_after(src, r"macro_rules!\s+" + mac + r"\s*\{", f"macro {mac}"))
-        if body != want:
-            refuse(f"macro `{mac}!` changed; the model mirrors\n    {want}\n  but the source has\n    {body}")
+    # ---- codecs
     nums_parse = sorted(re.findall(r"impl_parse_bytes_for_numeric!\((\w+)\);", src))
     nums_dump = sorted(re.findall(r"impl_dump_bytes_for_numeric!\((\w+)\);", src))
     for t in ("u32", "u64"):
-        if t not in nums_parse or t not in nums_dump:
-            refuse(f"numeric codec for `{t}` missing")
+        if nums_parse.count(t) != 1 or nums_dump.count(t) != 1:
+            refuse(f"numeric codec for `{t}` missing or duplicated")
     for what, want in CODEC_BODIES.items():
-        blk = block_after(src, r"\bimpl\s+" + re.escape(what) + r"\s*\{", f"impl {what}")
-        fns = functions(blk)
+        fns = trait_impls[what]
         if len(fns) != 1 or fns[0][3] != want:
             refuse(f"`impl {what}` changed; the model mirrors\n    {want}\n  but the source has\n    {fns[0][3] if fns else '<nothing>'}")
 
     newtypes = []
-    for m in re.finditer(r"\bimpl\s+ParseBytes\s+for\s+(\w+)\s*\{", src):
-        t = m.group(1)
-        if t in ("String", "Duration"):
-            continue
-        body = functions(src[m.end():match_brace(src, m.end() - 1) - 1])[0][3]
-        nm = re.fullmatch(r"Ok\(Self\((u\d+)::parse_bytes\(bytes\)\?\)\)", body)
+    for t in NEWTYPES:
+        fns = trait_impls[f"ParseBytes for {t}"]
+        nm = re.fullmatch(r"Ok\(Self\((u\d+)::parse_bytes\(bytes\)\?\)\)", fns[0][3]) if len(fns) == 1 else None
         if not nm:
-            refuse(f"`impl ParseBytes for {t}` is not a newtype over a numeric codec: `{body}`")
+            refuse(f"`impl ParseBytes for {t}` is not a newtype over a numeric codec: `{fns[0][3] if fns else ''}`")
+        if not re.search(r"pub\s+struct\s+" + t + r"\(" + nm.group(1) + r"\)\s*;", src):
+            refuse(f"`pub struct {t}({nm.group(1)});` not found")
         newtypes.append((t, nm.group(1)))
     newtypes.sort()
 
-    # ---- bus speed
-    body = functions(block_after(src, r"\bimpl\s+ParseBytes\s+for\s+u3v::BusSpeed\s*\{", "impl ParseBytes for u3v::BusSpeed"))[0][3]
-    if not body.startswith("use u3v::BusSpeed::{") or "let raw = u32::parse_bytes(bytes)?; let speed = match raw {" not in body:
-        refuse(f"bus speed decoder changed: `{body[:200]}`")
-    arms = body[body.index("match raw {") + len("match raw {"):]
-    speeds = [(intlit(a), b) for a, b in re.findall(r"(0b[01_]+|0x[0-9a-f_]+|\d+) => (\w+),", arms)]
-    if not re.search(r"other => \{ return Err\(ControlError::InvalidDevice\(", arms) or not speeds:
-        refuse("bus speed decoder: fallback arm is not `other => return Err(InvalidDevice)`")
+    # ---- bus speed: whole body pinned, arms split at top-level commas
+    fns = trait_impls["ParseBytes for u3v::BusSpeed"]
+    if len(fns) != 1:
+        refuse("`impl ParseBytes for u3v::BusSpeed`: expected exactly `parse_bytes`")
+    gd = match_template("ParseBytes for u3v::BusSpeed", fns[0][3])
+    speeds = arms_of("ParseBytes for u3v::BusSpeed", gd["ARMS"])
 
     # ---- capability / configuration bits
     capbits, cfgops = [], []
     for st in ("DeviceCapability", "U3VCapablitiy", "DeviceConfiguration"):
-        for is_pub, fn, sig, body in functions(block_after(src, r"\bimpl\s+" + st + r"\s*\{", f"impl {st}")):
+        for is_pub, fn, sig, body in inherent[st]:
             m = re.fullmatch(r"is_bit_set!\(&?self\.0, (\d+)_i32\)", body)
-            if m and sig.endswith("-> bool"):
+            if m and sig == f"fn {fn}(self) -> bool":
                 capbits.append((st, fn, int(m.group(1))))
                 continue
             m = re.fullmatch(r"(set_bit|unset_bit)!\(self\.0, (\d+)_i32\)", body)
-            if m and st == "DeviceConfiguration":
+            if m and st == "DeviceConfiguration" and sig == f"fn {fn}(&mut self)":
                 cfgops.append((fn, m.group(1), int(m.group(2))))
                 continue
-            refuse(f"{st}.{fn}: not an `is_bit_set!/set_bit!/unset_bit!(self.0, N_i32)` body: `{body}`")
-    for st, t in (("DeviceCapability", "u64"), ("U3VCapablitiy", "u64"), ("DeviceConfiguration", "u64"), ("GenICamFileInfo", "u32")):
-        if not re.search(r"pub\s+struct\s+" + st + r"\(" + t + r"\)\s*;", src):
-            refuse(f"`pub struct {st}({t});` not found")
+            refuse(f"{st}.{fn}: not an `is_bit_set!/set_bit!/unset_bit!(self.0, N_i32)` method: `{sig}` `{body}`")
 
-    # ---- GenICamFileInfo
+    # ---- GenICamFileInfo: bodies pinned
     enums = {}
-    for is_pub, fn, sig, body in functions(block_after(src, r"\bimpl\s+GenICamFileInfo\s*\{", "impl GenICamFileInfo")):
+    for is_pub, fn, sig, body in inherent["GenICamFileInfo"]:
         name = f"GenICamFileInfo.{fn}"
-        fs = bitfields(name, body)
-        if fn in ("file_type", "compression_type"):
-            if len(fs) != 1 or fs[0][1] != "raw" or "match raw {" not in body:
-                refuse(f"{name}: expected `let raw = …; match raw {{…}}`: `{body[:200]}`")
-            arms = body[body.index("match raw {") + len("match raw {"):]
-            table = [(intlit(a), b) for a, b in re.findall(r"(\d+) => Ok\(\w+::(\w+)\),", arms)]
-            if not table or not re.search(r"_ => Err\(ControlError::InvalidDevice\(", arms):
-                refuse(f"{name}: match arms not understood: `{arms[:200]}`")
-            enums[fn] = table
-            fields.append((name, "raw", fs[0][2], fs[0][3]))
-        elif fn == "schema_version":
-            byvar = {f[1]: f for f in fs}
-            if not re.fullmatch(r"let major = \(self\.0 >> \d+_i32\) & \w+; let minor = \(self\.0 >> \d+_i32\) & \w+; "
-                                r"semver::Version::new\(u64::from\(major\), u64::from\(minor\), 0\)", body):
-                refuse(f"{name}: body not understood: `{body[:200]}`")
-            for role in ("major", "minor"):
-                if role not in byvar:
-                    refuse(f"{name}: no `let {role} = …` bit field")
-                fields.append((name, role, byvar[role][2], byvar[role][3]))
-        else:
+        if name not in DECODER_TEMPLATES:
             refuse(f"{name}: unknown method (teach the model)")
-    for fn in ("file_type", "compression_type"):
-        if fn not in enums:
+        gd = match_template(name, body)
+        fields += fields_of(name, gd)
+        if fn in ("file_type", "compression_type"):
+            enums[fn] = arms_of(name, gd["ARMS"])
+    for fn in ("file_type", "compression_type", "schema_version"):
+        if fn not in [f[1] for f in inherent["GenICamFileInfo"]]:
             refuse(f"GenICamFileInfo.{fn} missing")
 
     # ---- setter/getter pairs
